@@ -75,7 +75,20 @@ class NarrowAnalysis(Analysis):
             c = callee(e0)
             if c[0] == "fn" and c[1] in CONVERTERS:
                 return c[1], e0
+            d = getattr(self.tu, "derived_conv", {}).get(c[1]) if c[0] == "fn" else None
+            if d is not None:
+                return d[0], e0
         return None, None
+
+    def _link_flag(self, st, var, call):
+        """v = helper(ob, &ok): `ok` true means the conversion succeeded"""
+        c = callee(call)
+        d = getattr(self.tu, "derived_conv", {}).get(c[1]) if c[0] == "fn" else None
+        if d is not None and len(call.kids) > 1 + d[1]:
+            a = strip(call.kids[1 + d[1]])
+            if a is not None and a.k == "UnaryOperator" and a.v == "&" and path(a.kids[0]):
+                st = sset(st, "fl:" + path(a.kids[0]), var)
+        return st
 
     def _casts(self, e):
         """list of (from type, to type, kind) of the cast chain around e."""
@@ -106,6 +119,7 @@ class NarrowAnalysis(Analysis):
             if l0.k == "DeclRefExpr" and l0.rk in ("VarDecl", "ParmVarDecl"):
                 # v = CONVERTER(arg): v becomes a tracked conversion result
                 st = self._link_overflow(st, l0.n, api, call)
+                st = self._link_flag(st, l0.n, call)
                 return sset(st, "c:" + l0.n, (api, bool(safe), bool(nar), bool(nar)))
             self._count(node)
             if not safe:
@@ -181,11 +195,47 @@ class NarrowAnalysis(Analysis):
                         if api:
                             st = self._link_overflow(st, v.n, api, call)
                             st = sset(st, "c:" + v.n, (api, False, False, False))
+                            st = self._link_flag(st, v.n, call)
             return st
         for n in e.walk():
             if n.k == "BinaryOperator" and n.v == "=":
+                l0 = strip(n.kids[0])
+                if l0 is not None and l0.k == "UnaryOperator" and l0.v == "*" and \
+                        const_int(n.kids[1]) is not None:
+                    p0 = strip(l0.kids[0])
+                    if p0 is not None and p0.k == "DeclRefExpr" and p0.rk == "ParmVarDecl":
+                        st = sset(st, "of:" + p0.n, const_int(n.kids[1]))
+                        continue
                 st = self._store(node, st, n.kids[0], n.kids[1])
         return st
+
+    def summary(self):
+        """(api, index of the success flag out-parameter) if the function
+        returns a converter's result and reports success through `*flag = 1`,
+        set only where the error indicator has been tested"""
+        params = [k.n for k in self.cfg.fn.kids if k.k == "ParmVarDecl"]
+        rets = [n for n in self.cfg.nodes if n.kind == "return" and n.e is not None]
+        cand = None
+        for p in params:
+            good = 0
+            ok = True
+            api = None
+            for r in rets:
+                e = strip(r.e)
+                for st in self.IN.get(r.id, ()):
+                    flag = sget(st, "of:" + p)
+                    fact = sget(st, "c:" + e.n) if e is not None and e.k == "DeclRefExpr" else None
+                    if flag == 1 and fact is not None and fact[1]:
+                        good += 1
+                        api = fact[0]
+                    elif flag == 0:
+                        pass
+                    else:
+                        ok = False
+            if ok and good:
+                cand = (api, params.index(p))
+        return cand
+
 
     def on_node(self, node, st):
         if node.e is None:
@@ -213,6 +263,10 @@ class NarrowAnalysis(Analysis):
             return st
         # the overflow indicator of an *AndOverflow converter
         ovn = None
+        if e0.k == "DeclRefExpr" and sget(st, "fl:" + e0.n) is not None:
+            if want:
+                st = self._upd(st, sget(st, "fl:" + e0.n), errchk=True)
+            return st
         if e0.k == "DeclRefExpr" and sget(st, "ov:" + e0.n) is not None:
             # `if (overflow)`: the false side excludes both signs
             if not want:
@@ -285,9 +339,12 @@ def analyse_narrowing(tu):
     findings = []
     stores = funcs = 0
     used = set()
+    storing_fns = set()
+    all_calls = []
     for name in tu.order:
         fn = tu.funcs[name]
         calls = [callee(n)[1] for n in fn.walk() if n.k == "CallExpr" and callee(n)[0] == "fn"]
+        all_calls.extend(calls)
         for c in calls:
             if c in WRAPPING:
                 node = next(n for n in fn.walk() if n.k == "CallExpr" and callee(n) == ("fn", c))
@@ -302,18 +359,33 @@ def analyse_narrowing(tu):
                                "(wraps / truncates / accepts non-integers): "
                                "unrepresentable keys or values would be "
                                "stored as different data" % c, path=[]))
-        if not any(c in CONVERTERS for c in calls):
+        derived = getattr(tu, "derived_conv", None)
+        if derived is None:
+            derived = tu.derived_conv = {}
+        if not any(c in CONVERTERS or c in derived for c in calls):
             continue
         used |= set(c for c in calls if c in CONVERTERS)
         an = NarrowAnalysis(CFG(fn), tu)
         an.solve()
+        sm = an.summary()
+        if sm is not None:
+            derived[name] = sm
         funcs += 1
         stores += an.stores
+        if an.stores and any(
+                n.k == "BinaryOperator" and n.v == "=" and strip(n.kids[0]) is not None and
+                strip(n.kids[0]).k == "UnaryOperator" and strip(n.kids[0]).v == "*" and
+                strip(strip(n.kids[0]).kids[0]) is not None and
+                strip(strip(n.kids[0]).kids[0]).rk == "ParmVarDecl" for n in fn.walk()):
+            storing_fns.add(name)       # stores through an out-parameter
         for node, st, what, detail in an.reports:
             findings.append(dict(
                 rule="NARROW-GUARD", function=name, file=node.where.split(":")[0],
                 line=node.line, construct=what, detail=detail,
                 path=witness_lines(an.witness(node, st))))
+    # a conversion factored into a function is one checked store, used at each
+    # of its call sites (the instance floor counts uses)
+    stores += sum(1 for c in all_calls if c in storing_fns)
     # dedupe identical constructs within a TU (the macro expands at many sites)
     seen = {}
     for f in findings:
